@@ -33,7 +33,7 @@ FUNCTIONS = {p: ['Recipe.bake', 'Recipe.uses', 'Recipe.transfer', 'Recipe.create
 SERVES = {'resolve': ['C08', 'C07', 'C03'], 'same-op': ['C08', 'C07', 'C03'], 'store': ['C08', 'C07', 'C03'], 'names': ['C08'],
           'snapshots': ['C09', 'C15'], 'objects-used': ['C09', 'C15'], 'used': ['C16', 'C08'],
           'substances-used': ['C09', 'C17'], 'trash': ['C09', 'C17', 'C15'], 'frame': ['C04'], 'no-effect-before-bake': ['C08'],
-          'safe': ['C08']}
+          'safe': ['C08'], 'filed-under-own-name': ['C09', 'C15']}
 
 
 class Event:
@@ -117,6 +117,8 @@ def _fill_results(I, args, kwargs):
     r = like(I, args[0])
     is_dilute = len(args) > 3
     solvent = args[1] if not is_dilute else args[3]     # fill_to(self, solvent, q) / dilute(self, solute, c, solvent, name)
+    if is_dilute and len(args) > 4 and args[4] is not None:
+        r.fields['name'] = args[4]                     # contract of Container.dilute: the result carries the new name
     if isinstance(solvent, SubV) and not is_dilute:
         cells = [r] if r.cls.name == 'Container' else [c for row in r.fields['wells'].cells for c in row]
         for c in cells:
@@ -497,6 +499,16 @@ def judge(I, cx, exp, step, evs, known_before):
     new_keys = [kt for kt, v in st.results.known[known_before:]]
     extra = [str(kt) for kt in new_keys if not any(kt.eq(n) for n in names.values())]
     I.oblige('store', stored_ok and not extra, 'property', note='; '.join(notes[:3]) + (f' extra names stored: {extra}' if extra else ''))
+    # ---- the trackers find the objects of a step by NAME (step.to[0].name == container.name ...): every object filed in
+    # results must carry the name it is filed under, or later steps on it become invisible to them
+    misfiled = []
+    for label, o in out_for.items():
+        got = results_value(I, st, names[label])
+        nm = got.fields.get('name') if isinstance(got, Obj) else None
+        same_name = (isinstance(nm, NameV) and nm.term.eq(names[label])) or (isinstance(nm, str) and str(names[label]) == nm)
+        if not same_name:
+            misfiled.append(f"results[{names[label]}] holds an object named {nm!r}")
+    I.oblige('filed-under-own-name', not misfiled, 'property', note='; '.join(misfiled[:3]))
     # ---- snapshots
     snap = []
     to_l, frm_l = exp['to'], exp['frm']
